@@ -163,6 +163,24 @@ def run(ctx, rep):
             rep.discharged(k3, "the value used is written back to metadata %s of the components that are evaluated/saved" % meta)
         else:
             rep.violated(k3, "the effective %s is recorded in the metadata of the emitted components" % pname, construct=where)
+    # Q3' the metadata are written on every path (definite writes along the chain of set_meta summaries)
+    ev2, r2, _a2 = ctx.eval_entry("bin", body, opaque=MAIN_SUMMARIES + ["set_meta"])
+    eps2 = find_calls(ev2, "summary:balance::energy_performance")
+    if len(eps2) == 1:
+        w = definite_writes(eps2[0].a[1])
+        for pname, (cli, meta, default, pos) in PARAMS.items():
+            kq = "C19/Q3/%s/always-written" % pname
+            v = w.get(meta)
+            used = eps2[0].a[pos + 1] if pos + 1 < len(eps2[0].a) else None
+            ok = v is not None and used is not None and any(x is used for x in tm.subterms(v))
+            if ok:
+                rep.discharged(kq, "metadata %s of the evaluated / saved components is set to the value used on every path" % meta)
+            else:
+                rep.violated(kq, "the effective %s is recorded in the saved components whatever the input already contained" % pname,
+                             construct=where, why=("on some path %s is not (re)written with the value used" % meta) if v is None
+                             else "the text written does not contain the value passed to energy_performance")
+    else:
+        rep.violated("C19/Q3/anchor", "main calls energy_performance once (with set_meta summarised)", construct=where)
     # an option with a clap default is always "given": the metadata / default levels would be dead
     dv = []
     prog = ctx.bin
@@ -259,3 +277,25 @@ def range_ok(pname, cond, leaf):
     if pname == "k_exp":
         return 0.0 in nums and 1.0 in nums
     return any(abs(n - 0.001) < 1e-9 for n in nums)
+
+
+def definite_writes(t, depth=0):
+    """Metadata keys certainly written (and with which text) in a components value built by a chain of
+    summarised set_meta calls; at a branch only writes common to both sides count."""
+    if depth > 60:
+        return {}
+    if t.op == "havoc" and isinstance(t.a[0], tm.T) and t.a[0].op == "call" and str(t.a[0].a[0]).endswith("set_meta"):
+        c = t.a[0]
+        prior = [x for x in c.a if isinstance(x, tm.T) and x.op == "prior"]
+        w = definite_writes(prior[0].a[1], depth + 1) if prior else {}
+        strs = [x for x in c.a[1:] if isinstance(x, tm.T) and x.op == "str"]
+        vals = [x for x in c.a[1:] if isinstance(x, tm.T) and x.op not in ("str", "prior", "ref")]
+        if strs and vals:
+            w = dict(w)
+            w[strs[0].a[0]] = vals[0]
+        return w
+    if t.op == "ite":
+        a = definite_writes(t.a[1], depth + 1)
+        b = definite_writes(t.a[2], depth + 1)
+        return dict((k, v) for k, v in a.items() if k in b and b[k] is v)
+    return {}
